@@ -30,7 +30,11 @@ import (
 	"path/filepath"
 	"sort"
 	"strings"
+	"sync"
+	"sync/atomic"
 	"time"
+
+	"github.com/glowlabs-org/gca-backend/server"
 
 	"verifharness/lib/drv"
 	"verifharness/lib/ev"
@@ -60,6 +64,8 @@ func main() {
 			"CurrentTimeslot is bracketed by two reads of the system clock; a sample in which the clock went backwards between the reads is discarded (counted), not judged",
 			"host time zones are set through $TZ for the production probe (Go honours it; the probe embeds time/tzdata so the zones resolve on any host); the probe reports the zone it resolved and the run is inconclusive unless zones with a non-zero UTC offset on 2023-11-19 were in force",
 			"rotation trigger and start-up threshold are also measured for windows that contain a timeslot ceil(k*2^32/300) (k = 1, 2 and a seeded k) and for the highest window below 2^32, reached through the same pre-seeded signed record (trusted disk state); there the clock walks upward until the first rotation (one rotation per directory)",
+			"first-check episode (rotation gate open): wall-clock progress bound with a scheduler-responsiveness control. Time is taken from just before NewGCAServer to the first migrateReports (stamped in the rotating goroutine). Held as soon as ONE of up to 30 trials rotates in less than half a check period (a loop that sleeps a period first can never do that); violated only if at least 8 trials ALL took at least one period and a 1 ms watchdog goroutine saw no wake-up gap above period/4 in at least 5 of them; anything else is recorded as not established and fails nothing",
+			"start-ups after very long gaps (up to thousands of weeks) use fresh directories (no devices, cheap rotations) and one small populated server; the judgement right after start (rotation loop parked) only demands the current slot, the one after a single released loop iteration the whole acceptance range",
 			"production build = tags 'verif' without 'test'; the verif tag only adds accessor functions (add-only hooks)",
 			"unix times at or beyond genesis+2^32 s and timeslots above floor((2^32-1)/300) are outside the property's quantifier; what the code returns just beyond is recorded, not judged",
 			"the inequality uses ceil(period/300 s) slots for the rotation check period and does not model the duration of the rotation itself",
@@ -190,6 +196,9 @@ func plan(tier string, seed int64) []run.Batch {
 	add("prod-consts", 0, nil)
 	add("measure-window", 0, nil)
 	add("measure-startup", 0, nil)
+	add("startup-long", 0, map[string]string{"populated": "no"})
+	add("startup-long", 0, map[string]string{"populated": "yes"})
+	add("first-check", 0, nil)
 	add("extremes-low", 0, nil)
 	// server window offsets near 2^32 (offset = record offset + 2016)
 	for _, off := range highOffsets {
@@ -242,6 +251,10 @@ func atOffsets(seed int64) []uint32 {
 
 func child(b run.Batch, r *ev.Result) {
 	switch b.Kind {
+	case "startup-long":
+		childStartupLong(b, r)
+	case "first-check":
+		childFirstCheck(b, r)
 	case "trigger-at":
 		childTriggerAt(b, r)
 	case "startup-at":
@@ -953,6 +966,245 @@ func lastRecordOffset(b []byte) int64 {
 	return int64(recs[len(recs)-1].Week) + 2016
 }
 
+// ---------------------------------------------------------------- start-up after a very long gap
+
+// afterStart judges one start-up: right after NewGCAServer returned (the
+// rotation loop is parked at its gate and cannot help) the report for the
+// current slot must be storable; after ONE released loop iteration the whole
+// acceptance range up to now+432 must be.
+func afterStart(p *prober, r *ev.Result, off0 uint32, now int64, what string) bool {
+	after := p.offset()
+	r.Eval(1)
+	r.Count("restarts", 1)
+	r.Max("max.startup_gap_weeks", (now-int64(off0))/2016)
+	r.Max("max.startup_rotations", (int64(after)-int64(off0))/2016)
+	replay := map[string]interface{}{"offset_before": off0, "now": now, "gap": now - int64(off0), "offset_after_start": after, "case": what}
+	acc, ok := p.probe(uint32(now), uint32(now))
+	if !ok {
+		return false
+	}
+	if !acc {
+		r.Violationf("startup-leaves-current-slot-outside-window", replay,
+			"%s: start with now-offset=%d (= %d weeks + %d) returned with window offset %d, now-offset=%d: the report for the current timeslot is refused before the rotation loop has run at all",
+			what, now-int64(off0), (now-int64(off0))/2016, (now-int64(off0))%2016, after, now-int64(after))
+	} else {
+		r.Count("startup_current_report_accepted", 1)
+	}
+	n2 := drv.StepRotation()
+	if n2 < 0 {
+		r.Inconc("the rotation loop did not come round within the watchdog time after a start (no conclusion)")
+		return false
+	}
+	r.Count("rotations_observed", int64(n2))
+	far := now + halfWidth
+	if far >= two32 {
+		far = two32 - 1
+	}
+	acc, ok = p.probe(uint32(now), uint32(far))
+	if !ok {
+		return false
+	}
+	if !acc {
+		replay["offset_after_first_loop_iteration"] = p.offset()
+		r.Violationf("startup-leaves-acceptable-report-outside-window", replay,
+			"%s: start with now-offset=%d (%d start-up rotations, %d by the first loop iteration): the acceptable report for slot now+432 is refused, window offset is %d",
+			what, now-int64(off0), (int64(after)-int64(off0))/2016, n2, p.offset())
+	} else {
+		r.Count("startup_far_report_accepted", 1)
+	}
+	return true
+}
+
+func childStartupLong(b run.Batch, r *ev.Result) {
+	rng := rand.New(rand.NewSource(b.Seed))
+	weeks := []int64{259, 260, 261, 262, 300, 520, 1000, 3000, 263 + rng.Int63n(5000)}
+	if b.P("populated") == "yes" {
+		// a server with a device and reports: every rotation archives 32 KiB,
+		// so fewer and shorter gaps, one after the other on the same directory
+		weeks = []int64{260, 261, 264 + rng.Int63n(30), 300 + rng.Int63n(60)}
+		p, done := startGated(b, r, 0, nil)
+		if p == nil {
+			return
+		}
+		defer done()
+		p.label = "startup-long populated"
+		for i := 0; i < 3; i++ {
+			if _, ok := p.probe(0, uint32(5+7*i)); !ok {
+				return
+			}
+		}
+		for _, k := range weeks {
+			off := p.offset()
+			now := int64(off) + k*2016 + 2016 + rng.Int63n(1984) // the remainder that needs one more rotation than k
+			run.Op("restart populated offset=%d weeks=%d now=%d", off, k, now)
+			drv.SetClock(off)
+			if err := p.w.Close(); err != nil {
+				r.Inconc("close: " + err.Error())
+				return
+			}
+			drv.SetClock(uint32(now))
+			arrived := drv.RotationArrive.Load()
+			if err := p.w.Start(); err != nil {
+				r.Violationf("restart-failed", map[string]interface{}{"offset": off, "now": now}, "server did not start with the clock %d weeks past its window: %v", k, err)
+				return
+			}
+			if !waitParked(arrived) {
+				r.Inconc("the rotation loop did not reach its gate after a restart")
+				return
+			}
+			if !afterStart(p, r, off, now, fmt.Sprintf("populated server, %d weeks of downtime", k)) {
+				return
+			}
+			r.Count("startup_long_cases", 1)
+		}
+		return
+	}
+	for i, k := range weeks {
+		for _, d := range []int64{rng.Int63n(1984), 2016 + rng.Int63n(1984)} {
+			now := k*2016 + d
+			bb := b
+			bb.Dir = filepath.Join(b.Dir, fmt.Sprintf("k%d-%d", i, d))
+			bb.Seed = b.Seed + int64(i)*10 + d%10
+			os.MkdirAll(bb.Dir, 0755)
+			run.Op("fresh start weeks=%d now=%d", k, now)
+			p, done := startGated(bb, r, uint32(now), nil)
+			if p == nil {
+				return
+			}
+			p.label = fmt.Sprintf("startup-long fresh weeks=%d", k)
+			ok := afterStart(p, r, 0, now, fmt.Sprintf("fresh server started %d weeks after its window offset", k))
+			done()
+			if !ok {
+				return
+			}
+			r.Count("startup_long_cases", 1)
+		}
+	}
+	r.Sample(map[string]interface{}{"kind": "start-up after long gaps", "weeks": weeks, "populated": b.P("populated")})
+}
+
+// ---------------------------------------------------------------- the first rotation check is not preceded by a sleep
+
+// childFirstCheck runs with the rotation gate OPEN. A server is started with
+// now-offset inside (3200, 4000): the start-up catch-up leaves that to the
+// background loop, whose first pass must come at once, not one check period
+// later (in production 3999 + 12 + 432 > 4032). Wall-clock progress bound
+// with a scheduler-responsiveness control; see Spec.Assumptions.
+func childFirstCheck(b run.Batch, r *ev.Result) {
+	rng := rand.New(rand.NewSource(b.Seed))
+	period := server.VerifConsts().ReportMigrationFrequency
+	if period < 20*time.Millisecond {
+		r.Inconc(fmt.Sprintf("rotation check period of this build is %v: too short to time", period))
+		return
+	}
+	drv.GateRotation(false)
+	drv.GateImpact(true)
+	var stamp atomic.Int64 // unix nanos of the first migrateReports of the current trial
+	server.VerifSetHook("migrate.beforeLock", func(*server.GCAServer) {
+		stamp.CompareAndSwap(0, time.Now().UnixNano())
+	})
+	var elapsed []time.Duration
+	fast, slow, slowResponsive := 0, 0, 0
+	trials := 0
+	for trials < 30 {
+		trials++
+		gap := int64(3201 + rng.Intn(799))
+		if trials%3 == 1 {
+			gap = []int64{3990, 3999, 3601, 3201}[(trials/3)%4]
+		}
+		dir := filepath.Join(b.Dir, fmt.Sprintf("t%d", trials))
+		e, err := drv.NewServerDir(dir, rng, true)
+		if err != nil {
+			r.Inconc(err.Error())
+			return
+		}
+		drv.SetClock(uint32(gap)) // fresh directory: window offset 0
+		stamp.Store(0)
+		// scheduler watchdog: wakes every millisecond, remembers its largest gap
+		var maxGap atomic.Int64
+		stop := make(chan struct{})
+		var wg sync.WaitGroup
+		wg.Add(1)
+		go func() {
+			defer wg.Done()
+			last := time.Now()
+			for {
+				select {
+				case <-stop:
+					return
+				default:
+				}
+				time.Sleep(time.Millisecond)
+				n := time.Now()
+				if g := int64(n.Sub(last)); g > maxGap.Load() {
+					maxGap.Store(g)
+				}
+				last = n
+			}
+		}()
+		run.Op("ungated start gap=%d trial=%d", gap, trials)
+		t0 := time.Now() // before NewGCAServer: any sleep the loop does starts after this instant
+		if err := e.Start(); err != nil {
+			close(stop)
+			wg.Wait()
+			r.Inconc("start: " + err.Error())
+			return
+		}
+		deadline := t0.Add(20 * period)
+		for stamp.Load() == 0 && time.Now().Before(deadline) {
+			time.Sleep(200 * time.Microsecond)
+		}
+		st := stamp.Load()
+		close(stop)
+		wg.Wait()
+		d := 20 * period
+		if st != 0 {
+			d = time.Duration(st - t0.UnixNano())
+		}
+		off := e.S.VerifSnapshot(false).Offset
+		drv.SetClock(off)
+		e.Close()
+		os.RemoveAll(dir)
+		r.Eval(1)
+		elapsed = append(elapsed, d)
+		responsive := time.Duration(maxGap.Load()) < period/4
+		switch {
+		case d < period/2:
+			fast++
+		case d >= period:
+			slow++
+			if responsive {
+				slowResponsive++
+			}
+		}
+		if fast > 0 {
+			break // established: the first check is not preceded by a sleep of one period
+		}
+		if slow >= 8 && slow == trials && slowResponsive >= 5 {
+			break
+		}
+	}
+	sort.Slice(elapsed, func(i, j int) bool { return elapsed[i] < elapsed[j] })
+	r.Count("first_check.trials", int64(trials))
+	r.Count("first_check.fast_trials", int64(fast))
+	r.Count("first_check.slow_trials", int64(slow))
+	r.SetExtra("first_check", map[string]interface{}{"period": period.String(), "trials": trials, "fast(<period/2)": fast, "slow(>=period)": slow, "slow_with_responsive_scheduler": slowResponsive,
+		"elapsed_min": elapsed[0].String(), "elapsed_median": elapsed[len(elapsed)/2].String(), "elapsed_max": elapsed[len(elapsed)-1].String()})
+	r.Sample(map[string]interface{}{"kind": "first rotation check after start (ungated)", "period": period.String(), "trials": trials, "elapsed_min": elapsed[0].String(), "elapsed_median": elapsed[len(elapsed)/2].String()})
+	switch {
+	case fast > 0:
+		r.Count("first_check.established_immediate", 1)
+	case slow >= 8 && slow == trials && slowResponsive >= 5:
+		r.Violationf("first-rotation-check-delayed-by-a-period", map[string]interface{}{"period": period.String(), "trials": trials, "elapsed_min": elapsed[0].String(), "elapsed_median": elapsed[len(elapsed)/2].String(), "responsive_trials": slowResponsive},
+			"server started with now-offset in (3200, 4000): in all %d trials the first rotation came no earlier than one check period (%v) after the start began (min %v, median %v; the scheduler was responsive, largest wake-up gap < period/4, in %d of them). "+
+				"The start-up catch-up leaves this band to the background loop; with the production period of 12 slots a window at now-offset=3999 then misses acceptable reports (3999+12+432 > 4032)",
+			trials, period, elapsed[0], elapsed[len(elapsed)/2], slowResponsive)
+	default:
+		r.Count("first_check.not_established", 1)
+		r.Note("first-check episode not established either way: %d trials, %d fast, %d slow (%d with responsive scheduler), min %v", trials, fast, slow, slowResponsive, elapsed[0])
+	}
+}
+
 // ---------------------------------------------------------------- trigger and start-up at other absolute positions
 
 func preseedOffset(off uint32) func(e *drv.Srv) error {
@@ -1058,7 +1310,7 @@ func childStartupAt(b run.Batch, r *ev.Result) {
 	var off64 int64
 	fmt.Sscan(b.P("offset"), &off64)
 	off := uint32(off64)
-	gaps := []int64{0, 3200, 3201, 3990, 3999, 4000, 4001, 4010, 5000, 6015, 6016, 6017, 8031, 8032, 4000 + (b.Seed*37)%4000}
+	gaps := []int64{0, 3200, 3201, 3599, 3600, 3601, 3990, 3999, 4000, 4001, 4010, 5000, 6015, 6016, 6017, 8031, 8032, 4000 + (b.Seed*37)%4000}
 	if rel := relWrap(off); rel >= 1 {
 		gaps = append(gaps, rel-1, rel, rel+1)
 	}
@@ -1379,6 +1631,8 @@ func post(c *ev.Check, outs []*run.Outcome) {
 			}
 		}
 	}
+	c.Require("startup_long_cases", 10)
+	c.Require("first_check.trials", 1)
 	c.Require("measured_trigger_at", 4)
 	c.Require("measured_catchup_at", 4)
 	c.Require("inequality_evaluations_at_other_offsets", 4)
